@@ -420,9 +420,16 @@ def matcher(ctx, fe):
                     # returns idx when depth - 1 == 0
                     zero = any(kind(c) == 'cmp' and c[1] == '==' and pol and
                                c[3] == C(0) for c, pol in bp.cond)
+                    v = bp.value
+                    is_index = (kind(v) == 'loopvar' and v[2] == ps[0]) or (
+                        # for idx in range(start, end): the element
+                        kind(v) == 'elem' and v[1] == ev[3] and
+                        kind(ev[3]) == 'call' and
+                        ev[3][2] == ('builtin', 'range') and
+                        len(ev[3][3]) == 2 and
+                        ev[3][3][0] == ('param', ps[0]))
                     rows.setdefault('close-return', []).append(
-                        zero and kind(bp.value) == 'loopvar' and
-                        bp.value[2] == ps[0])
+                        zero and is_index)
                 elif ch is not None:
                     rows.setdefault(ch, []).append(dd)
     ctx.ob('C19.D5', fe.qualname, 'depth-starts-at-1', init_ok,
